@@ -109,6 +109,24 @@ func gen(g *vh.Gen) {
 			g.Emit("scan", st, fmt.Sprint(p), b, "-", "-")
 		}
 	}
+	// large mailboxes (cap 0): 1100 and more messages in one mailbox, the oldest k of them expired — k small and
+	// k > 1000 —, next to a small control mailbox; afterwards every id is asked for on its own. The memory store in
+	// the quick tier; the file store (each delivery and removal rewrites the index: seconds per case) and a larger
+	// mailbox in the thorough tier.
+	ctl := vh.HS("ctl") + ":9000,5,9100"
+	large := []string{vh.HS("big") + ":9000*30,10*1070;" + ctl, ctl + ";" + vh.HS("big") + ":9000*1050,10*50"}
+	for _, b := range large {
+		g.Emit("scan", "mem", "3600", b, "-", "-")
+	}
+	if g.Tier == "thorough" {
+		for _, b := range large {
+			g.Emit("scan", "file", "3600", b, "-", "-")
+		}
+		b := vh.HS("big") + ":9000*1100,10*1100;" + ctl
+		g.Emit("scan", "mem", "3600", b, "-", "-")
+		g.Emit("scan", "file", "3600", b, "-", "-")
+		g.Emit("scan", "mem", "3600", vh.HS("big")+":9000*5,10*1500,20*1495;"+ctl, "r3/add:"+vh.HS("big"), "-")
+	}
 	// deliveries / removals / purges forced between the scanner's steps
 	for i := 0; i < g.N(60, 2000); i++ {
 		p := periods[1+g.Intn(len(periods)-1)]
